@@ -1,43 +1,10 @@
 import FmtModel
-open Py
+open Py Wire
 
-def hexVal (c : Char) : Nat :=
-  if '0' ≤ c && c ≤ '9' then c.toNat - 48
-  else if 'a' ≤ c && c ≤ 'f' then c.toNat - 87
-  else if 'A' ≤ c && c ≤ 'F' then c.toNat - 55 else 0
-
-def hexToBytes (s : String) : ByteArray :=
-  let rec go : List Char → ByteArray → ByteArray
-    | a :: b :: r, acc => go r (acc.push (UInt8.ofNat (hexVal a * 16 + hexVal b)))
-    | _, acc => acc
-  go s.toList ByteArray.empty
-
-def decodeArg (s : String) : Str :=
-  match String.fromUTF8? (hexToBytes s) with
-  | some t => t.toList
-  | none => []
-
-def hexDigit (n : Nat) : Char := if n < 10 then Char.ofNat (48 + n) else Char.ofNat (87 + n)
-
-/-- printable ASCII stays, everything else becomes \u{hex}; backslash is escaped too -/
-def esc (s : Str) : String :=
-  String.ofList (s.flatMap fun c =>
-    if c.toNat ≥ 32 && c.toNat ≤ 126 && c != '\\' && c != '|' && c != ',' then [c]
-    else ("\\u{".toList ++ (Nat.toDigits 16 c.toNat) ++ ['}']))
-
-def showOpt (o : Option Str) : String := match o with | some s => "=" ++ esc s | none => "~"
-
-def showGroupdict (g : List (Str × Option Str)) : String :=
-  String.intercalate "," (g.map fun (k, v) => esc k ++ showOpt v)
-
-def showR {α} (f : α → String) : R α → String
-  | .ok a => "ok:" ++ f a
-  | .error e => "err:" ++ e.name
-
-def dispatch (op : String) (a : List Str) : String :=
+def baseDispatch (op : String) (a : List Str) : Option String :=
   match op, a with
   | "re_search", [vb, pat, subj] =>
-    (match parseRegexWith (vb == "1".toList) pat with
+    some (match parseRegexWith (vb == "1".toList) pat with
      | none => "err:re.error"
      | some r =>
        match search r subj with
@@ -45,16 +12,24 @@ def dispatch (op : String) (a : List Str) : String :=
        | some (st, rest, caps) =>
          s!"{st} {subj.length - rest.length} " ++ showGroupdict (groupdict r caps))
   | "re_finditer", [pat, subj] =>
-    (match parseRegex pat with
+    some (match parseRegex pat with
      | none => "err:re.error"
      | some r => String.intercalate ";" ((finditer r subj).map fun (st, en, _, caps) =>
          s!"{st} {en} " ++ showGroupdict (groupdict r caps)))
-  | "replace", [s, o, n] => esc (replaceAll s o n)
-  | "replace1", [s, o, n] => esc (replaceFirst s o n)
-  | "split_ws", [s] => String.intercalate "," ((splitWs s).map esc)
-  | "split", [s, sep] => String.intercalate "," ((splitOn s sep).map esc)
-  | "int", [s] => showR (fun i => String.ofList (showInt i)) (pyInt s)
-  | _, _ => "bad-op"
+  | "replace", [s, o, n] => some (esc (replaceAll s o n))
+  | "replace1", [s, o, n] => some (esc (replaceFirst s o n))
+  | "split_ws", [s] => some (showStrList (splitWs s))
+  | "split", [s, sep] => some (showStrList (splitOn s sep))
+  | "int", [s] => some (showR showIntS (pyInt s))
+  | _, _ => none
+
+def dispatch (op : String) (a : List Str) : String :=
+  match baseDispatch op a with
+  | some r => r
+  | none =>
+    match Drv.verDispatch op a with
+    | some r => r
+    | none => "bad-op"
 
 partial def loop (h : IO.FS.Stream) (out : IO.FS.Stream) : IO Unit := do
   let line ← h.getLine
